@@ -254,3 +254,4 @@ MANIFEST = {
     "note": "Trusted: the curated table (its provenance is stated per row) and R1's list of alternative spellings. Derived constants are recomputed here from the CODATA inputs with 60-digit decimals (and cross-checked against the printed CODATA values inside the table module); pi-valued rows are compared to 1e-15 in every registry.",
     "ref": "DESIGN.md §4 C20",
 }
+MANIFEST["text"] += ' In the float registry every row is also converted with Fraction, Decimal and int magnitudes.'
